@@ -5,6 +5,7 @@ import RTA.Model.XCost
 import RTA.Spec.Naive
 import RTA.Model.Poisson
 import RTA.Spec.Ros2Exec
+import RTA.Spec.Ros2ExecX
 import RTA.Spec.NaiveRos
 /-! Line-protocol driver: one operation per input line, one result per output line. -/
 
@@ -253,6 +254,27 @@ def evalOp : List String → Option String
       let chain := fun i => (ch.find? (·.1 == i)).map (·.2)
       let rels := fun t => (rl.filter (·.1 == t)).map (·.2)
       let outs := Exec.run cbs chain sigma rels
+      pure ("[" ++ ",".intercalate (outs.map fun (i, r, c) => s!"{i}:{r}:{c}") ++ "]")
+    | [] => none
+  | "execx" :: ts => do
+    -- execx a b c  n (isTimer prio cost)*n  sigmaBits  r (t i)*r : executor with execution times
+    -- ex i t = 1 + (a*i + b*t + c) % cost_i  (RTA/Spec/Ros2ExecX.lean), no chains
+    let (a, ts) ← pNat ts
+    let (b, ts) ← pNat ts
+    let (c, ts) ← pNat ts
+    let (n, ts) ← pNat ts
+    let (cbs, ts) ← pRep (fun ts => do
+      let (tm, ts) ← pNat ts
+      let (pr, ts) ← pNat ts
+      let (c, ts) ← pNat ts
+      pure (({ isTimer := tm == 1, prio := pr, cost := c } : Exec.Cb), ts)) n ts
+    match ts with
+    | bits :: ts =>
+      let (rl, _) ← pList (pPair pNat pNat) ts
+      let sigma := bits.toList.map (· == '1')
+      let rels := fun t => (rl.filter (·.1 == t)).map (·.2)
+      let ex := fun i t => 1 + (a * i + b * t + c) % (cbs.getD i default).cost
+      let outs := ExecX.run cbs ex (fun _ => none) sigma rels
       pure ("[" ++ ",".intercalate (outs.map fun (i, r, c) => s!"{i}:{r}:{c}") ++ "]")
     | [] => none
   | "maxrt" :: ts => do
